@@ -35,25 +35,35 @@ def _yields(fn):
     return [n for n in body_walk(fn) if isinstance(n, ast.Yield)]
 
 
-def _mflag(y):
-    """('const', '0'/'1') | ('bool', name) | None for the m= flag of a yielded KITTY_TRANSMISSION % (ctrl, chunk)."""
+def _mflag(y, fn=None):
+    """(('const', '0'/'1') | ('bool', name, has_control_data) | ('other', text), payload) for a yielded KITTY_TRANSMISSION % (ctrl, chunk).
+    The control string is read through its symbolic shape (tiv.emit), so f-strings, concatenations and named locals are the same."""
+    import re as _re
+    from tiv import emit
     v = y.value
     if not (isinstance(v, ast.BinOp) and isinstance(v.op, ast.Mod) and (dotted(v.left) or "").split(".")[-1] == "KITTY_TRANSMISSION" and isinstance(v.right, ast.Tuple) and len(v.right.elts) == 2):
         return None, None
     ctrl, chunk = v.right.elts
-    if isinstance(ctrl, ast.Constant) and isinstance(ctrl.value, str):
-        import re as _re
-        mo = _re.fullmatch(r"m=([01])", ctrl.value)
-        return (("const", mo.group(1)) if mo else ("other", ctrl.value)), norm(chunk)
-    if isinstance(ctrl, ast.JoinedStr):
-        txt = norm(ctrl)
-        import re as _re
-        mo = _re.search(r"m=\{bool\((\w+)\)(:d)?\}", txt)
-        if mo:
-            has_ctrl = "get_control_data()" in txt
-            return ("bool", mo.group(1), has_ctrl), norm(chunk)
-        return ("other", txt), norm(chunk)
-    return ("other", norm(ctrl)), norm(chunk)
+    if fn is None:
+        fn = y
+        while fn is not None and not isinstance(fn, ast.FunctionDef):
+            fn = getattr(fn, "_p", None)
+    term = emit.Builder(fn).expr(ctrl)
+    items = term.items if isinstance(term, emit.Seq) else [term]
+    has_ctrl = any(isinstance(i, emit.Sym) and "get_control_data()" in i.text for i in items)
+    txt = repr(term)
+    for k, it in enumerate(items):
+        if isinstance(it, emit.Lit) and _re.search(r"m=[01]$", it.text) and k == len(items) - 1:
+            return (("const", it.text[-1]) if not has_ctrl and it.text in ("m=0", "m=1") else ("other", txt)), norm(chunk)
+        if isinstance(it, emit.Lit) and it.text.endswith("m=") and k + 1 < len(items):
+            nx = items[k + 1]
+            if isinstance(nx, emit.Sym):
+                mo = _re.fullmatch(r"\{?(?:int\()?bool\((\w+)\)\)?(:d)?\}?", nx.text)
+                if mo and k + 2 == len(items):
+                    return ("bool", mo.group(1), has_ctrl), norm(chunk)
+            if isinstance(nx, emit.Alt) and isinstance(nx.cond, ast.Name) and repr(nx.a) == "'1'" and repr(nx.b) == "'0'" and k + 2 == len(items):
+                return ("bool", nx.cond.id, has_ctrl), norm(chunk)
+    return ("other", txt), norm(chunk)
 
 
 def run(ck, m):
@@ -243,10 +253,19 @@ def rule_chunk_protocol(ck, m, rid):
             if isinstance(c, ast.Call) and (call_name(c) or "").split(".")[-1] == "get_chunks":
                 n_calls += 1
                 ck.ob(rid, enclosing_stmt(c), not c.args and not c.keywords, f"{q}: get_chunks is called with another chunk size `{short(c, 50)}`", stmt=f"{q}: get_chunks() with the default size")
-    ck.expect(n_calls >= 3, f"expected >= 3 call sites of get_chunks, found {n_calls}")
+    ck.expect(n_calls >= 2, f"expected >= 2 call sites of get_chunks, found {n_calls}")
     ys = _yields(gc)
     loops = [n for n in body_walk(gc) if isinstance(n, ast.While)]
-    reads = find_stmts("$$a, $$b = payload.read(size), payload.read(size)", body_walk(gc))
+    r1 = find_stmts("$$a = payload.read(size)", body_walk(gc))
+    reads = []
+    for s1, b1 in r1:
+        blk = getattr(s1._p, "body", [])
+        i1 = next((k for k, x in enumerate(blk) if x is s1), None)
+        if i1 is not None and i1 + 1 < len(blk):
+            b2 = match_stmt("$$b = payload.read(size)", blk[i1 + 1])
+            if b2 is not None and norm(b2["b"]) != norm(b1["a"]):
+                reads.append((s1, {"a": b1["a"], "b": b2["b"]}))
+                break
     recognised = len(ys) == 3 and len(loops) == 1 and len(reads) == 1 and isinstance(loops[0].test, ast.Name)
     alt = False
     if not recognised:
@@ -273,7 +292,12 @@ def rule_chunk_protocol(ck, m, rid):
             f3, c3 = _mflag(last)
             gl = [norm(t) for t, b in guards(last) if b]
             ck.ob(rid, enclosing_stmt(last), f3 == ("const", "0") and c3 == cur and gl == [cur], f"the final chunk must carry m=0 and be emitted only if a chunk is pending (`if {cur}`); found {f3}, guards {gl}", stmt="get_chunks: final yield m=0 under `if chunk`")
-            shifts = find_stmts(f"{cur}, {ahead} = {ahead}, payload.read(size)", body_walk(gc))
+            shifts = []
+            for s1, _ in find_stmts(f"{cur} = {ahead}", body_walk(gc)):
+                blk = getattr(s1._p, "body", [])
+                i1 = next((k for k, x in enumerate(blk) if x is s1), None)
+                if i1 is not None and i1 + 1 < len(blk) and match_stmt(f"{ahead} = payload.read(size)", blk[i1 + 1]) is not None:
+                    shifts.append((s1, {}))
             inl = [s_ for s_, _ in shifts if any(a is loops[0] for a in _anc(s_))]
             pre = [s_ for s_, _ in shifts if s_.lineno < loops[0].lineno and s_.lineno > first.lineno]
             ck.ob(rid, loops[0], len(inl) == 1 and len(pre) == 1 and inl[0].lineno > inloop.lineno, "the window must shift (chunk, look-ahead = look-ahead, read) once after the first yield and once per loop iteration after its yield", stmt="get_chunks: window shifts")
